@@ -145,6 +145,19 @@ def build_gates():
                       seeds=[b"X-A: v w", b"A:", b"A:\tb "], n=4))
     gates.append(dict(name="request-line", pattern=P.first_line_re, mode="fullmatch", wrapper="reqline", real=real_reqline, spec=spec_request_line,
                       seeds=[b"GET / HTTP/1.1", b"OPTIONS * HTTP/1.0", b"GET http://h:80/p?q#f", b"GET /"], n=4))
+    def real_trailer(line):
+        from waitress.buffers import OverflowableBuffer
+
+        if b"\r\n" in line or line == b"":
+            return None
+        r = R.ChunkedReceiver(OverflowableBuffer(10000))
+        r.received(b"0\r\n" + line + b"\r\n\r\n")
+        if not r.completed:
+            return None
+        return r.error is None
+
+    gates.append(dict(name="trailer-line", pattern=G.HEADER_FIELD_RE, mode="match", wrapper="none", real=real_trailer, spec=spec_header_line,
+                      seeds=[b"T: v", b"A:", b"X-Sum: 1 2"], n=4))
     gates.append(dict(name="content-length@call-site", site_only=True, real=real_cl_site, seeds=[b" 5", b"5 ", b"\t05\t"]))
     return gates
 
@@ -242,9 +255,6 @@ def main(tier, only=None):
                     v = b"".join(tup)
                     n += 1
                     want = len(v.strip(b" \t")) > 0 and all(c in DIGIT for c in v.strip(b" \t"))
-                    if v.strip(b" \t") == b"":
-                        want = True  # empty value: header present but empty -> handled below
-                        continue
                     got = real(v)
                     if got != want:
                         run.violation(f"{name}:{'accepts-more' if got else 'rejects-valid'}", f"Content-Length value {v!r}: call site {'accepts' if got else 'rejects'}, grammar says {'accept' if want else 'reject'}", {"gate": name, "string": v.decode('latin-1')})
@@ -288,7 +298,12 @@ def main(tier, only=None):
                     inm = M.accepts_classes(tup)
                     if inm != got:
                         mism += 1
-                        run.violation("harness:model-mismatch:" + name, f"model of gate {name} says {inm} for {w!r}, real gate says {got}", {"gate": name, "string": w.decode("latin-1")})
+                        ins = S.accepts_classes(tup)
+                        if ins != got:
+                            # the code at the call site disagrees with the grammar (and with its own pattern)
+                            run.violation(classify(name, w, got, ins), f"gate {name}: {w!r} is {'accepted' if got else 'rejected'} by the call site, grammar says {'accept' if ins else 'reject'} (found by the bounded comparison; the pattern-derived model says {inm})", {"gate": name, "string": w.decode("latin-1")})
+                        else:
+                            run.violation("harness:model-mismatch:" + name, f"model of gate {name} says {inm} for {w!r}, real gate says {got}", {"gate": name, "string": w.decode("latin-1")})
                         if mism > 3:
                             break
                 else:
